@@ -213,6 +213,12 @@ Proof.
 Qed.
 
 (* ------------------------------------------------------------------ one batch *)
+Lemma exhausted_spec st pool :
+  exhausted st pool = true <-> forall h, In h pool -> (utility st h <= 0)%Z.
+Proof.
+  unfold exhausted. rewrite forallb_forall. split; intros H h Hh; specialize (H h Hh); apply Z.leb_le; exact H.
+Qed.
+
 Section Batch.
 Variable k : nat.
 Notation popk := (popk marks).
@@ -221,46 +227,60 @@ Notation runk := (runk n_genes pairs marks n k).
 Notation greedyk := (greedyk n_genes pairs marks n k).
 Notation popg := (popg marks).
 
-(* shape of a successful batch: exactly j genes, appended in order; every popped gene was a member
-   of the list, unchosen, not popped earlier in the batch, and of maximal utility (utility as it
-   stood when the batch started) among the members not yet popped *)
+(* shape of a successful batch: at most j genes, appended in order; every popped gene was a member
+   of the list, unchosen, not popped earlier in the batch, of POSITIVE utility and of maximal utility
+   (utility as it stood when the batch started) among the members not yet popped; and if the batch
+   has fewer than j genes, no member left has a positive utility *)
 Lemma popk_shape j : forall st pool batch st2 pool2,
   popk j st pool batch = POk st2 pool2 ->
-  length batch = j /\ chosen st2 = chosen st ++ batch /\
+  length batch <= j /\ chosen st2 = chosen st ++ batch /\
   (forall h, In h pool2 <-> In h pool /\ ~ In h batch) /\
   (forall b1 g b2, batch = b1 ++ g :: b2 ->
-     In g pool /\ ~ In g (chosen st) /\ ~ In g b1 /\
-     forall h, In h pool -> ~ In h b1 -> (utility st h <= utility st g)%Z).
+     In g pool /\ ~ In g (chosen st) /\ ~ In g b1 /\ (0 < utility st g)%Z /\
+     forall h, In h pool -> ~ In h b1 -> (utility st h <= utility st g)%Z) /\
+  (length batch < j -> forall h, In h pool2 -> (utility st h <= 0)%Z).
 Proof.
   induction j as [|j IH]; intros st pool batch st2 pool2 H; cbn [SelectionK.popk] in H.
-  - destruct batch as [|g b]; [|discriminate]. inversion H; subst. split; [reflexivity|].
+  - destruct batch as [|g b]; [|discriminate]. inversion H; subst. split; [cbn; lia|].
     split; [rewrite app_nil_r; reflexivity|]. split; [intros h; cbn; tauto|].
-    intros [|x b1] g b2 E; discriminate.
-  - destruct pool as [|p0 pr] eqn:Ep; [destruct batch; discriminate|]. rewrite <- Ep in *.
-    destruct batch as [|g b]; [discriminate|].
+    split; [intros [|x b1] g b2 E; discriminate | cbn; lia].
+  - destruct pool as [|p0 pr] eqn:Ep.
+    { destruct batch as [|g b]; [|discriminate]. inversion H; subst. split; [cbn; lia|].
+      split; [rewrite app_nil_r; reflexivity|]. split; [intros h; cbn; tauto|].
+      split; [intros [|x b1] g b2 E; discriminate | intros _ h []]. }
+    rewrite <- Ep in *.
+    destruct batch as [|g b].
+    { destruct (exhausted st pool) eqn:X; [|discriminate]. inversion H; subst st2 pool2.
+      split; [cbn; lia|]. split; [rewrite app_nil_r; reflexivity|]. split; [intros h; cbn; tauto|].
+      split; [intros [|x b1] g b2 E; discriminate|]. intros _. apply exhausted_spec. exact X. }
     destruct (is_top st pool g) eqn:T; [|discriminate].
+    destruct (utility st g <=? 0)%Z eqn:U; [discriminate|]. apply Z.leb_gt in U.
     destruct (nmem g (chosen st)) eqn:C; [destruct b; discriminate|].
     apply nmem_false in C. apply is_top_spec in T. destruct T as [T1 T2].
-    destruct (IH _ _ _ _ _ H) as (L & Ch & Pl & Lg).
+    destruct (IH _ _ _ _ _ H) as (L & Ch & Pl & Lg & Sh).
     split; [cbn; lia|]. split; [rewrite Ch; cbn [Selection.choose chosen]; rewrite <- app_assoc; reflexivity|].
-    split.
+    split; [|split].
     + intros h. rewrite Pl, pool_remove_in. cbn [In]. split; intros A.
       * destruct A as [[A1 A2] A3]. split; [exact A1|]. intros [B|B]; [apply A2; symmetry; exact B | exact (A3 B)].
       * destruct A as [A1 A2]. split; [split; [exact A1 | intros B; apply A2; left; symmetry; exact B]|].
         intros B. apply A2. right. exact B.
     + intros [|x b1] g' b2 E; cbn in E; inversion E; subst.
-      * split; [exact T1|]. split; [exact C|]. split; [intros []|]. intros h Hh _. apply T2. exact Hh.
-      * destruct (Lg b1 g' b2 eq_refl) as (A1 & A2 & A3 & A4).
+      * split; [exact T1|]. split; [exact C|]. split; [intros []|]. split; [exact U|]. intros h Hh _. apply T2. exact Hh.
+      * destruct (Lg b1 g' b2 eq_refl) as (A1 & A2 & A3 & A5 & A4).
         apply pool_remove_in in A1. destruct A1 as [A1 A1'].
         cbn [Selection.choose chosen] in A2. rewrite in_app_iff in A2.
+        assert (A1b : (g' =? x) = false) by (apply Nat.eqb_neq; exact A1').
         split; [exact A1|]. split; [tauto|].
         split; [intros [B|B]; [congruence | contradiction]|].
+        split; [cbn [Selection.choose utility] in A5; rewrite A1b in A5; exact A5|].
         intros h Hh Hn. cbn [In] in Hn.
         assert (Hne : h <> x) by (intros ->; apply Hn; left; reflexivity).
         specialize (A4 h). cbn [Selection.choose utility] in A4.
-        apply Nat.eqb_neq in Hne. rewrite Hne in A4.
-        apply Nat.eqb_neq in A1'. rewrite A1' in A4.
+        apply Nat.eqb_neq in Hne. rewrite Hne in A4. rewrite A1b in A4.
         apply A4; [apply pool_remove_in; split; [exact Hh | apply Nat.eqb_neq; exact Hne] | tauto].
+    + intros Hl h Hh. cbn [length] in Hl. assert (Hl' : length b < j) by lia.
+      pose proof (Sh Hl' h Hh) as A. apply Pl in Hh. destruct Hh as [Hh _]. apply pool_remove_in in Hh.
+      destruct Hh as [_ Hne]. cbn [Selection.choose utility] in A. apply Nat.eqb_neq in Hne. rewrite Hne in A. exact A.
 Qed.
 
 Lemma popk_inv j : forall st pool batch st2 pool2,
@@ -268,9 +288,13 @@ Lemma popk_inv j : forall st pool batch st2 pool2,
 Proof.
   induction j as [|j IH]; intros st pool batch st2 pool2 H HJ HP; cbn [SelectionK.popk] in H.
   - destruct batch as [|g b]; [|discriminate]. inversion H; subst. auto.
-  - destruct pool as [|p0 pr] eqn:Ep; [destruct batch; discriminate|]. rewrite <- Ep in *.
-    destruct batch as [|g b]; [discriminate|].
+  - destruct pool as [|p0 pr] eqn:Ep.
+    { destruct batch as [|g b]; [|discriminate]. inversion H; subst. auto. }
+    rewrite <- Ep in *.
+    destruct batch as [|g b].
+    { destruct (exhausted st pool); [|discriminate]. inversion H; subst. auto. }
     destruct (is_top st pool g) eqn:T; [|discriminate].
+    destruct (utility st g <=? 0)%Z; [discriminate|].
     destruct (nmem g (chosen st)) eqn:C; [destruct b; discriminate|].
     apply nmem_false in C. apply is_top_spec in T. destruct T as [T1 T2].
     apply (IH _ _ _ _ _ H).
@@ -278,8 +302,26 @@ Proof.
     + apply PI_choose. exact HP.
 Qed.
 
-(* while the loop has not stopped, the first pop of a batch cannot raise and takes a gene of
-   positive utility: only the LATER pops of a batch can go wrong *)
+(* the `raise RuntimeError("chose gene twice")` statement is unreachable: a gene is popped only if its
+   utility is positive, a chosen gene has a negative utility *)
+Lemma popk_no_raise j : forall st pool batch e,
+  JK st -> PI st pool -> popk j st pool batch <> PErr e.
+Proof.
+  induction j as [|j IH]; intros st pool batch e HJ HP; cbn [SelectionK.popk].
+  - destruct batch; discriminate.
+  - destruct pool as [|p0 pr] eqn:Ep; [destruct batch; discriminate|]. rewrite <- Ep in *.
+    destruct batch as [|g b]; [destruct (exhausted st pool); discriminate|].
+    destruct (is_top st pool g) eqn:T; [|discriminate].
+    destruct (utility st g <=? 0)%Z eqn:U; [discriminate|]. apply Z.leb_gt in U.
+    apply is_top_spec in T. destruct T as [T1 T2].
+    destruct (nmem g (chosen st)) eqn:C.
+    + exfalso. apply nmem_in in C. pose proof (JK_taken _ HJ g C). lia.
+    + apply nmem_false in C. apply IH.
+      * apply JK_choose; [exact HJ | exact C | apply (PI_genes _ _ HP); exact T1].
+      * apply PI_choose. exact HP.
+Qed.
+
+(* while the loop has not stopped, a member of maximal utility is unchosen and of positive utility *)
 Lemma top_unfinished st pool g :
   JK st -> PI st pool -> finished st = false -> is_top st pool g = true ->
   ~ In g (chosen st) /\ g < n_genes /\ utility st g = max_utility st /\ (0 < utility st g)%Z.
@@ -297,6 +339,24 @@ Lemma pool_nonempty_unfinished st pool : JK st -> PI st pool -> finished st = fa
 Proof.
   intros HJ HP F. destruct (unfinished_top st HJ F) as (g0 & G1 & G2 & _).
   pose proof (PI_all _ _ HP g0 G1 G2) as H. intros ->. destruct H.
+Qed.
+
+Lemma not_exhausted_unfinished st pool : JK st -> PI st pool -> finished st = false -> exhausted st pool = false.
+Proof.
+  intros HJ HP F. destruct (unfinished_top st HJ F) as (g0 & G1 & G2 & G3 & G4).
+  destruct (exhausted st pool) eqn:X; [|reflexivity]. exfalso.
+  pose proof (proj1 (exhausted_spec st pool) X g0 (PI_all _ _ HP g0 G1 G2)). lia.
+Qed.
+
+(* ... so the first test of a batch never stops it: a batch of the unfinished loop is not empty *)
+Lemma popk_nonempty j st pool batch st2 pool2 :
+  JK st -> PI st pool -> finished st = false ->
+  SelectionK.popk marks (S j) st pool batch = POk st2 pool2 -> batch <> [].
+Proof.
+  intros HJ HP F H ->. cbn [SelectionK.popk] in H.
+  pose proof (pool_nonempty_unfinished _ _ HJ HP F) as Hne.
+  destruct pool as [|p0 pr] eqn:Ep; [congruence|]. rewrite <- Ep in *.
+  rewrite (not_exhausted_unfinished _ _ HJ HP F) in H. discriminate.
 Qed.
 
 (* ------------------------------------------------------------------ runs *)
@@ -317,6 +377,14 @@ Proof.
   apply (popk_inv _ _ _ _ _ _ H); [apply JK_update; exact HJ | apply PI_refresh; exact HP].
 Qed.
 
+Lemma stepk_no_raise st pool b e : JK st -> PI st pool -> stepk st pool b <> SRaise e.
+Proof.
+  intros HJ HP. unfold SelectionK.stepk. destruct (finished (update_filled st)); [discriminate|].
+  pose proof (popk_no_raise k (update_filled st) (refresh st pool) b) as H.
+  destruct (SelectionK.popk marks k (update_filled st) (refresh st pool) b) as [x y|e'|] eqn:E; try discriminate.
+  exfalso. apply (H e'); [apply JK_update; exact HJ | apply PI_refresh; exact HP | reflexivity].
+Qed.
+
 Lemma runk_inv trace : forall st pool i st',
   JK st -> PI st pool -> runk st pool trace i = KDone st' ->
   JK st' /\ exists st0, JK st0 /\ st' = update_filled st0 /\ finished st' = true.
@@ -326,6 +394,18 @@ Proof.
     split; [apply JK_update; exact HJ|]. exists st. auto.
   - destruct (stepk st pool b) as [st1 pool1|e|] eqn:S; [|destruct t; discriminate|discriminate].
     destruct (stepk_inv _ _ _ _ _ HJ HP S) as [HJ1 HP1]. apply (IH _ _ _ _ HJ1 HP1 H).
+Qed.
+
+(* no sequence of batches, legal or not, drives the loop into the exception *)
+Theorem runk_never_raises trace : forall st pool i e,
+  JK st -> PI st pool -> runk st pool trace i <> KRaise e.
+Proof.
+  induction trace as [|b t IH]; intros st pool i e HJ HP; cbn [SelectionK.runk].
+  - destruct (finished (update_filled st)); discriminate.
+  - destruct (stepk st pool b) as [st1 pool1|e1|] eqn:S.
+    + destruct (stepk_inv _ _ _ _ _ HJ HP S) as [HJ1 HP1]. apply IH; assumption.
+    + exfalso. exact (stepk_no_raise _ _ _ _ HJ HP S).
+    + discriminate.
 Qed.
 
 Theorem batch_no_duplicates prefix batches st :
@@ -353,45 +433,59 @@ Proof.
   rewrite !covered_split by exact Hb. rewrite (JK_aggr _ HJ), !(JK_counts _ HJ) in C. exact C.
 Qed.
 
+Theorem batch_never_raises prefix batches e :
+  replayk n_genes pairs marks n k prefix batches <> KRaise e.
+Proof.
+  unfold replayk. destruct (list_eqb prefix (chosen start)); [|discriminate].
+  apply runk_never_raises; [apply JK_start | apply PI_pool0].
+Qed.
+
 (* ------------------------------------------------------------------ legality of the trace *)
-(* every gene popped in a batch: a gene of the thinned array that was unchosen when the batch was
-   formed, and no gene that was unchosen then and has not been popped earlier in the batch had a
-   larger utility (utility = the array as it stood when the batch was formed, i.e. after the
-   update of this iteration); the batch has exactly k genes and is appended in order *)
+(* a batch has between 1 and k genes, appended in order, pairwise distinct.  Every gene popped in it:
+   a gene of the thinned array that was unchosen when the batch was formed, of POSITIVE utility, and
+   no gene that was unchosen then and has not been popped earlier in the batch had a larger utility
+   (utility = the array as it stood when the batch was formed, i.e. after the update of this
+   iteration).  The batch is shorter than k exactly when it ran out of useful genes: then no gene
+   left unchosen has a positive utility *)
 Theorem batch_trace_legal st pool batch st' pool' :
   JK st -> PI st pool -> stepk st pool batch = SNext st' pool' ->
   let st1 := update_filled st in
-  length batch = k /\ chosen st' = chosen st ++ batch /\ NoDup batch /\
-  forall b1 g b2, batch = b1 ++ g :: b2 ->
-    g < n_genes /\ ~ In g (chosen st) /\
-    forall h, h < n_genes -> ~ In h (chosen st) -> ~ In h b1 -> (utility st1 h <= utility st1 g)%Z.
+  (1 <= k -> 1 <= length batch) /\ length batch <= k /\
+  chosen st' = chosen st ++ batch /\ NoDup batch /\
+  (forall b1 g b2, batch = b1 ++ g :: b2 ->
+    g < n_genes /\ ~ In g (chosen st) /\ (0 < utility st1 g)%Z /\
+    forall h, h < n_genes -> ~ In h (chosen st) -> ~ In h b1 -> (utility st1 h <= utility st1 g)%Z) /\
+  (length batch < k -> forall h, h < n_genes -> ~ In h (chosen st') -> (utility st1 h <= 0)%Z).
 Proof.
   intros HJ HP H. cbv zeta. apply stepk_next in H. destruct H as [F H].
-  pose proof (PI_refresh _ _ HP) as HP1.
-  destruct (popk_shape _ _ _ _ _ _ H) as (L & Ch & _ & Lg).
-  split; [exact L|]. split; [exact Ch|]. split.
+  pose proof (JK_update _ HJ) as HJ1. pose proof (PI_refresh _ _ HP) as HP1.
+  destruct (popk_inv _ _ _ _ _ _ H HJ1 HP1) as [HJ2 HP2].
+  destruct (popk_shape _ _ _ _ _ _ H) as (L & Ch & Pl & Lg & Sh).
+  split.
+  { intros Hk. destruct k as [|j]; [lia|]. pose proof (popk_nonempty _ _ _ _ _ _ HJ1 HP1 F H) as Hne.
+    destruct batch; [congruence | cbn; lia]. }
+  split; [exact L|]. split; [exact Ch|]. split; [|split].
   - (* NoDup: a gene is never popped twice in a batch *)
     clear - Lg. induction batch as [|x b IH] using rev_ind; [constructor|].
     apply NoDup_app; [|repeat constructor; intros []|].
     + apply IH. intros b1 g b2 E. apply (Lg b1 g (b2 ++ [x])). rewrite E, <- app_assoc. reflexivity.
     + intros y Hy [<-|[]]. destruct (Lg b x [] eq_refl) as (_ & _ & A & _). contradiction.
-  - intros b1 g b2 E. destruct (Lg b1 g b2 E) as (A1 & A2 & _ & A4).
-    split; [apply (PI_genes _ _ HP1); exact A1|]. split; [exact A2|].
+  - intros b1 g b2 E. destruct (Lg b1 g b2 E) as (A1 & A2 & _ & A5 & A4).
+    split; [apply (PI_genes _ _ HP1); exact A1|]. split; [exact A2|]. split; [exact A5|].
     intros h Hh Hn Hb. apply A4; [|exact Hb]. apply (PI_all _ _ HP1); assumption.
+  - intros Hl h Hh Hn. apply (Sh Hl). apply (PI_all _ _ HP2); assumption.
 Qed.
 
-(* the first gene of every batch is a reference marker of a slot of the parent that was not yet
-   filled (its utility is positive) - the part of "only useful genes" that survives k >= 2 *)
-Theorem batch_head_is_marker st pool g b st' pool' :
-  JK st -> PI st pool -> stepk st pool (g :: b) = SNext st' pool' ->
+(* every gene of every batch is a reference marker of a slot of the parent that was not yet filled
+   when the batch was formed (its utility is positive) *)
+Theorem batch_genes_are_markers st pool batch st' pool' g :
+  JK st -> PI st pool -> stepk st pool batch = SNext st' pool' -> In g batch ->
   exists s, In s slots /\ marks g s = true /\ filled (update_filled st) s = false.
 Proof.
-  intros HJ HP H. apply stepk_next in H. destruct H as [F H].
-  pose proof (JK_update _ HJ) as HJ1. pose proof (PI_refresh _ _ HP) as HP1.
-  destruct k as [|j]; cbn [SelectionK.popk] in H; [discriminate|].
-  destruct (refresh st pool) as [|p0 pr] eqn:Ep; [discriminate|]. rewrite <- Ep in *.
-  destruct (is_top (update_filled st) (refresh st pool) g) eqn:T; [|discriminate].
-  destruct (top_unfinished _ _ _ HJ1 HP1 F T) as (C & _ & _ & Pos).
+  intros HJ HP H Hg. destruct (batch_trace_legal _ _ _ _ _ HJ HP H) as (_ & _ & _ & _ & Lg & _).
+  apply in_split in Hg. destruct Hg as (b1 & b2 & E). destruct (Lg b1 g b2 E) as (_ & C & Pos & _).
+  pose proof (JK_update _ HJ) as HJ1.
+  change (chosen st) with (chosen (update_filled st)) in C.
   rewrite (JK_util _ HJ1 g C) in Pos.
   assert (P : 0 < util (filled (update_filled st)) g) by lia.
   apply count_pos in P. destruct P as (s & Hs & Hm). apply andb_true_iff in Hm.
@@ -434,31 +528,17 @@ Proof.
     rewrite <- Hc. clear Hc.
     cbn [SelectionK.popk]. destruct (refresh st pool) as [|p0 pr] eqn:Ep; [congruence|]. rewrite <- Ep in *.
     destruct (is_top (update_filled st) (refresh st pool) g) eqn:T; cbn [andb]; [|reflexivity].
-    destruct (nmem g (chosen (update_filled st))) eqn:C; cbn [negb].
-    + destruct t; reflexivity.
-    + apply nmem_false in C. apply is_top_spec in T. destruct T as [T1 _].
-      apply IH; [apply JK_choose; [exact HJ1 | exact C | apply (PI_genes _ _ HP1); exact T1] | apply PI_choose; exact HP1].
+    destruct (top_unfinished _ _ _ HJ1 HP1 F T) as (C & _ & _ & Pos).
+    apply Z.leb_gt in Pos. rewrite Pos. apply nmem_false in C. rewrite C. cbn [negb].
+    apply nmem_false in C. apply is_top_spec in T. destruct T as [T1 _].
+    apply IH; [apply JK_choose; [exact HJ1 | exact C | apply (PI_genes _ _ HP1); exact T1] | apply PI_choose; exact HP1].
 Qed.
 
-(* with k = 1 the loop never raises, whatever batches are offered *)
+(* with k = 1 the loop never raises, whatever batches are offered (an instance of runk_never_raises;
+   it held before the repair of the batches as well) *)
 Theorem batch_one_never_raises trace : forall st pool i e,
   JK st -> PI st pool -> runk n_genes pairs marks n 1 st pool trace i <> KRaise e.
-Proof.
-  induction trace as [|b t IH]; intros st pool i e HJ HP; cbn [SelectionK.runk].
-  - destruct (finished (update_filled st)); discriminate.
-  - destruct (stepk n_genes pairs marks n 1 st pool b) as [st1 pool1|e1|] eqn:S.
-    + destruct (stepk_inv 1 _ _ _ _ _ HJ HP S) as [HJ1 HP1]. apply IH; assumption.
-    + exfalso. unfold SelectionK.stepk in S.
-      destruct (finished (update_filled st)) eqn:F; [discriminate|].
-      pose proof (JK_update _ HJ) as HJ1. pose proof (PI_refresh _ _ HP) as HP1.
-      pose proof (pool_nonempty_unfinished _ _ HJ1 HP1 F) as Hne.
-      cbn [SelectionK.popk] in S. destruct (refresh st pool) as [|p0 pr] eqn:Ep; [congruence|]. rewrite <- Ep in *.
-      destruct b as [|g b']; [discriminate|].
-      destruct (is_top (update_filled st) (refresh st pool) g) eqn:T; [|discriminate].
-      destruct (top_unfinished _ _ _ HJ1 HP1 F T) as (C & _). apply nmem_false in C. rewrite C in S.
-      destruct b'; discriminate.
-    + discriminate.
-Qed.
+Proof. exact (runk_never_raises 1 trace). Qed.
 
 (* ------------------------------------------------------------------ termination *)
 Section Fuel.
@@ -502,73 +582,77 @@ Proof.
   - pose proof (first_top_spec st pool) as Ft. destruct (first_top st pool) as [g|].
     + assert (Hp : pool <> []).
       { apply is_top_spec in Ft. destruct Ft as [Ft _]. intros ->. destruct Ft. }
+      destruct (utility st g <=? 0)%Z eqn:U.
+      { exists []. cbn [SelectionK.popk]. destruct pool as [|p0 pr] eqn:Ep; [congruence|]. rewrite <- Ep in *.
+        assert (X : exhausted st pool = true).
+        { apply exhausted_spec. intros h Hh. apply is_top_spec in Ft. destruct Ft as [_ Ft].
+          specialize (Ft h Hh). apply Z.leb_le in U. lia. }
+        rewrite X. reflexivity. }
       destruct (nmem g (chosen st)) eqn:C.
-      * exists [g]. cbn [SelectionK.popk]. destruct pool; [congruence|]. rewrite Ft, C. reflexivity.
+      * exists [g]. cbn [SelectionK.popk]. destruct pool; [congruence|]. rewrite Ft, U, C. reflexivity.
       * specialize (IH (choose st g) (pool_remove g pool)).
         destruct (popg marks j (choose st g) (pool_remove g pool)) as [st2 pool2|e];
           destruct IH as (b & Hb); exists (g :: b); cbn [SelectionK.popk];
-          (destruct pool; [congruence|]); rewrite Ft, C; exact Hb.
+          (destruct pool; [congruence|]); rewrite Ft, U, C; exact Hb.
     + subst pool. exists []. reflexivity.
 Qed.
 
+(* the fuelled loop ends in `break`: every pass that does not break chooses at least one new gene *)
 Lemma greedyk_enough fuel : forall st pool i,
   1 <= k -> JK st -> PI st pool -> n_genes - length (chosen st) < fuel ->
-  exists trace,
-    match greedyk fuel st pool with
-    | GDone st' => runk st pool trace i = KDone st'
-    | GRaise e => runk st pool trace i = KRaise e
-    | GOutOfFuel => False
-    end.
+  exists trace st', greedyk fuel st pool = GDone st' /\ runk st pool trace i = KDone st'.
 Proof.
   induction fuel as [|f IH]; intros st pool i Hk HJ HP Hf; [lia|]. cbn [SelectionK.greedyk].
   destruct (finished (update_filled st)) eqn:F.
-  - exists []. cbn [SelectionK.runk]. rewrite F. reflexivity.
+  - exists [], (update_filled st). cbn [SelectionK.runk]. rewrite F. split; reflexivity.
   - pose proof (JK_update _ HJ) as HJ1. pose proof (PI_refresh _ _ HP) as HP1.
     pose proof (popg_popk k (update_filled st) (refresh st pool)) as G.
     destruct (popg marks k (update_filled st) (refresh st pool)) as [st2 pool2|e].
     + destruct G as (b & Hb).
       destruct (popk_inv _ _ _ _ _ _ Hb HJ1 HP1) as [HJ2 HP2].
       destruct (popk_shape _ _ _ _ _ _ Hb) as (L & Ch & _).
+      assert (Hne : b <> []).
+      { destruct k as [|j]; [lia|]. apply (popk_nonempty _ _ _ _ _ _ HJ1 HP1 F Hb). }
+      assert (Lb : 1 <= length b) by (destruct b; [congruence | cbn; lia]).
       pose proof (chosenK_bound _ HJ2) as B. rewrite Ch, app_length in B.
       change (chosen (update_filled st)) with (chosen st) in B.
-      destruct (IH st2 pool2 (S i) Hk HJ2 HP2) as (tr & Htr).
+      destruct (IH st2 pool2 (S i) Hk HJ2 HP2) as (tr & st' & G1 & G2).
       { rewrite Ch, app_length. change (chosen (update_filled st)) with (chosen st). lia. }
-      exists (b :: tr). cbn [SelectionK.runk]. unfold SelectionK.stepk. rewrite F, Hb. exact Htr.
-    + destruct G as (b & Hb). exists [b]. cbn [SelectionK.runk]. unfold SelectionK.stepk. rewrite F, Hb. reflexivity.
+      exists (b :: tr), st'. split; [exact G1|]. cbn [SelectionK.runk]. unfold SelectionK.stepk. rewrite F, Hb. exact G2.
+    + exfalso. destruct G as (b & Hb). exact (popk_no_raise _ _ _ _ _ HJ1 HP1 Hb).
 Qed.
 
 Theorem batch_terminates :
   1 <= k ->
-  exists trace,
-    match greedyk (S n_genes) start pool0 with
-    | GDone st => replayk n_genes pairs marks n k (chosen start) trace = KDone st
-    | GRaise e => replayk n_genes pairs marks n k (chosen start) trace = KRaise e
-    | GOutOfFuel => False
-    end.
+  exists trace st,
+    greedyk (S n_genes) start pool0 = GDone st /\
+    replayk n_genes pairs marks n k (chosen start) trace = KDone st.
 Proof.
-  intros Hk. destruct (greedyk_enough (S n_genes) start pool0 0 Hk JK_start PI_pool0) as (tr & H); [lia|].
-  exists tr. unfold replayk.
+  intros Hk. destruct (greedyk_enough (S n_genes) start pool0 0 Hk JK_start PI_pool0) as (tr & st & H1 & H2); [lia|].
+  exists tr, st. split; [exact H1|]. unfold replayk.
   assert (E : list_eqb (chosen start) (chosen start) = true).
   { generalize (chosen start). intros l. induction l as [|x r IHl]; cbn; [reflexivity|].
     rewrite Nat.eqb_refl, IHl. reflexivity. }
-  rewrite E. exact H.
+  rewrite E. exact H2.
 Qed.
 
-(* every completed run makes at most n_genes / k + 1 passes: k * |trace| <= n_genes *)
+(* every completed run chooses between 1 and k genes per pass and at most n_genes in all *)
 Theorem batch_iterations_bounded trace : forall st pool i st',
-  JK st -> PI st pool -> runk st pool trace i = KDone st' ->
-  length (chosen st') = length (chosen st) + k * length trace /\ length (chosen st') <= n_genes.
+  1 <= k -> JK st -> PI st pool -> runk st pool trace i = KDone st' ->
+  length (chosen st) + length trace <= length (chosen st') /\
+  length (chosen st') <= length (chosen st) + k * length trace /\ length (chosen st') <= n_genes.
 Proof.
-  induction trace as [|b t IH]; intros st pool i st' HJ HP H.
-  - destruct (runk_inv k _ _ _ _ _ HJ HP H) as [HJ' _]. split; [|apply chosenK_bound; exact HJ'].
+  induction trace as [|b t IH]; intros st pool i st' Hk HJ HP H.
+  - destruct (runk_inv k _ _ _ _ _ HJ HP H) as [HJ' _].
+    pose proof (chosenK_bound _ HJ') as B.
     cbn [SelectionK.runk] in H. destruct (finished (update_filled st)); [|discriminate].
-    inversion H; subst. cbn. lia.
+    inversion H; subst. cbn in *. lia.
   - cbn [SelectionK.runk] in H.
     destruct (stepk n_genes pairs marks n k st pool b) as [st1 pool1|e|] eqn:S; [|destruct t; discriminate|discriminate].
     destruct (stepk_inv k _ _ _ _ _ HJ HP S) as [HJ1 HP1].
-    destruct (IH _ _ _ _ HJ1 HP1 H) as [E B]. split; [|exact B].
-    destruct (batch_trace_legal k _ _ _ _ _ HJ HP S) as (L & Ch & _).
-    rewrite E, Ch, app_length, L. cbn [length]. lia.
+    destruct (IH _ _ _ _ Hk HJ1 HP1 H) as (E1 & E2 & B).
+    destruct (batch_trace_legal k _ _ _ _ _ HJ HP S) as (L1 & L2 & Ch & _).
+    specialize (L1 Hk). rewrite Ch, app_length in E1, E2. cbn [length]. nia.
 Qed.
 End Fuel.
 
